@@ -27,10 +27,10 @@ type Case struct {
 
 func TestMain(m *testing.M) {
 	h.Setup("C09",
-		"F-full ASTs, zero-width shapes and corpus patterns (no ECMAScript) x LeftToRight/RightToLeft x inputs of 0-10 runes (valid UTF-8, multi-byte) x replacement strings from the $-grammar (valid $n ${n} ${name} $$ $& $` $' $+ $_, ambiguous $10 / $1a / ${1 / ${} / ${x}, literal $ at the end) x startAt in {-1, every aligned offset} x count in {-1,0,1,2,5}; one evaluation = one (pattern,input,replacement,startAt,count): Replace == independent fold of the Find*StartingAt/FindNextMatch sequence with the harness's own $-expander, ReplaceFunc(same expansion) == Replace, Replace($&) == input, Split(count) == fold of the sequence with groups interleaved; non-trivial = at least one match and a replacement containing a group or special reference; distinct = hash of the whole case",
+		"F-full ASTs, zero-width shapes and corpus patterns (ECMAScript included, with its longest-valid-prefix $nn rule) x LeftToRight/RightToLeft x inputs of 0-10 runes (valid UTF-8, multi-byte) x replacement strings from the $-grammar (valid $n ${n} ${name} $$ $& $` $' $+ $_, ambiguous $10 / $1a / ${1 / ${} / ${x}, literal $ at the end) x startAt in {-1, every aligned offset} x count in {-1,0,1,2,5}; one evaluation = one (pattern,input,replacement,startAt,count): Replace == independent fold of the Find*StartingAt/FindNextMatch sequence with the harness's own $-expander, ReplaceFunc(same expansion) == Replace, Replace($&) == input, Split(count) == fold of the sequence with groups interleaved; non-trivial = at least one match and a replacement containing a group or special reference; distinct = hash of the whole case",
 		map[string]float64{"rtl": 0.10, "count-limited": 0.20, "startAt-inner": 0.10, "two-or-more": 0.12, "ref-in-replacement": 0.2},
 		"$+ is the last capture of the last group in Groups() order (the reading of the .NET implementation this port follows)",
-		"a $-reference that does not name an existing group is literal text (.NET documentation); ECMAScript's $nn rule is out of scope")
+		"a $-reference that does not name an existing group is literal text (.NET documentation); under ECMAScript an un-braced $nn refers to the longest prefix of the digits that names a group")
 	h.Ceiling("compile-error", 0.25)
 	h.Main(m)
 }
@@ -87,7 +87,7 @@ func gen1(t *rapid.T) Case {
 		c.Spec.Pattern = ast.Print(root, ast.PrintOpts{})
 		c.AST = root
 	default:
-		spec, root, _ := gen.FullSpec(t, cfg, true, false, true)
+		spec, root, _ := gen.FullSpec(t, cfg, true, true, true)
 		c.Spec, c.AST = spec, root
 	}
 	alpha := []rune("ab1 \n")
@@ -153,6 +153,7 @@ func check(c Case) error {
 	}
 	rtl := c.Spec.RTL()
 	g := groupsOf(re)
+	g.ECMA = regexp2.RegexOptions(c.Spec.Options)&regexp2.ECMAScript != 0
 	for _, in := range c.Inputs {
 		s := string(in)
 		r := []rune(s)
